@@ -620,6 +620,28 @@ theorem add_complement_noop (st : St) (r : Rec) (l : Link) (i : Nat)
   unfold addLinkOnto
   rw [if_neg (by rw [hreal]; simp), if_pos hc]
 
+/-- … but not when the new link carries an identifier that another real line carries: the ID tag is looked up first,
+    the clash is reported whatever stored link the new one is compatible with (or the complement of) -/
+theorem link_id_clash_characterised (st : St) (r : Rec) (i : Nat) :
+    nameTakenElsewhere st r i = true ↔
+      ∃ n j, r.name = some n ∧ st.lines.findIdx? (fun q => q.name = some n) = some j ∧ j ≠ i ∧
+        (st.lines.getD j default).virt = false := by
+  unfold nameTakenElsewhere
+  constructor
+  · intro h
+    split at h
+    · cases h
+    · rename_i n hn
+      split at h
+      · rename_i j hj
+        simp only [Bool.and_eq_true, bne_iff_ne, ne_eq, Bool.not_eq_true'] at h
+        exact ⟨n, j, hn, hj, h.1, h.2⟩
+      · cases h
+  · rintro ⟨n, j, hn, hj, hji, hv⟩
+    rw [hn]
+    simp only [hj, Bool.and_eq_true, bne_iff_ne, ne_eq, Bool.not_eq_true']
+    exact ⟨hji, hv⟩
+
 -- non-vacuity: a forward reference creates a placeholder segment, the definition replaces it
 example : (run .gfa1 [.add ⟨.L, ["A", "+", "B", "-", "*"], false⟩, .add ⟨.S, ["A", "*"], false⟩]).lines.length = 3 := by
   decide
